@@ -1418,3 +1418,112 @@ def ob_time_aware_provider(ctx, n_ts):
         res.status, res.detail = 'inconclusive', 'vacuous'
     res.time = time.time() - t0
     return res
+
+
+def ob_simple_objectives(ctx):
+    """C20: the additive objectives built by the real feature builders (MIR of create_minimize_tours_feature,
+    MinimizeUnassignedBuilder::build, create_maximize_total_value_feature and the estimate methods): the quoted estimate
+    equals the change of the objective: +1 tour exactly when the route has no jobs yet; -w(job) for the unassigned count;
+    -value(job) for the total value; activity-level estimates are 0."""
+    from symex import DynV
+    name = 'simple_objectives'
+    res = Result(name)
+    res.bounds = 'route with 0 / 1 / 2 jobs; job weight / value: symbolic integer-valued; solution with n symbolic-free routes (n = 0..2)'
+    t0 = time.time()
+
+    class Env(drivers.Env):
+        def dyn_closure(self, engine, st, tag, args):
+            if tag in ('job_weight', 'job_value'):
+                return self.sym_f(tag, 0, 2 ** 16)
+            return super().dyn_closure(engine, st, tag, args)
+
+    def feature_objective(feature):
+        obj = env.field(feature, 'goal::Feature', 'objective')
+        if obj.variant() != 1:
+            raise Inconclusive('feature has no objective')
+        return obj.payload[1][0]
+
+    def estimate(eng, st, objective_arc, move_ctx):
+        inner = objective_arc.cell.v
+        fns = ctx.prog.find_method(inner.ty.split('::')[-1], 'estimate', trait='FeatureObjective')
+        if len(fns) != 1:
+            raise Inconclusive(f'estimate of {inner.ty} not found')
+        return eng.exec_fn(st, fns[0], [RefV(objective_arc.cell, 0), RefV(Cell(move_ctx), 0)])
+
+    def fitness_tours(eng, st, objective_arc, n_routes):
+        inner = objective_arc.cell.v
+        sol = Agg('struct', [], 'context::SolutionContext')
+        order = ctx.layout.fields('context::SolutionContext')
+        sol.fields = [Opaque(f) for f in order]
+        sol.fields[order.index('routes')] = VecV([Opaque(f'route{i}') for i in range(n_routes)])
+        clo = env.field(inner, 'fleet_usage::FleetUsageObjective', 'solution_estimate_fn')
+        return eng.call_closure(st, clo, [RefV(Cell(sol), 0)])
+
+    for k in (0, 1, 2):
+        env = Env(ctx.prog, ctx.layout, 16)
+        eng = symex.Engine(ctx.prog, ctx.layout, env)
+
+        def body(st, k=k, env=env, eng=eng):
+            env.assumptions.clear()
+            spec = TourSpec(env, k, True)
+            rc = spec.build()
+            job = EnumV('jobs::Job', 0, {0: [ArcV(Cell(Opaque('Single')))]})
+            name_tok = RefV(Cell(Opaque('"feature"')), 0)
+            # minimize tours
+            f1 = ctx.prog.find_free('create_minimize_tours_feature')
+            feat = eng.exec_fn(st, f1, [name_tok])
+            if feat.variant() != 0:
+                raise Inconclusive('create_minimize_tours_feature failed')
+            obj = feature_objective(feat.payload[0][0])
+            e_route = estimate(eng, st, obj, move_ctx_route(env, rc, job))
+            tgt_act = env.activity(IV(5), FV.const(0), FV.const(0), FV.max_value(), FV.const(0), FV.const(0))
+            acts_vec = env.field(env.field(env.field(rc, 'context::RouteContext', 'route'), 'route::Route', 'tour'), 'solution::tour::Tour', 'activities')
+            actx = activity_ctx(env, 0, RefV(acts_vec, 0), RefV(Cell(tgt_act), 0), RefV(acts_vec, 1))
+            e_act = estimate(eng, st, obj, move_ctx_activity(env, rc, actx))
+            # an empty route is not part of solution.routes: using it adds one tour
+            before = fitness_tours(eng, st, obj, 1 if k > 0 else 0)
+            after = fitness_tours(eng, st, obj, 1)
+            # minimize unassigned (custom estimator = symbolic weight)
+            mb = ctx.prog.find_method('MinimizeUnassignedBuilder', 'build')
+            builder = env.struct('minimize_unassigned::MinimizeUnassignedBuilder', name=Opaque('"feature"'),
+                                 job_estimator=mk_option(True, ArcV(Cell(DynV('job_weight'))), ty='Option<UnassignedJobEstimator>'))
+            feat2 = eng.exec_fn(st, mb[0], [builder])
+            obj2 = feature_objective(feat2.payload[0][0])
+            u_route = estimate(eng, st, obj2, move_ctx_route(env, rc, job))
+            u_act = estimate(eng, st, obj2, move_ctx_activity(env, rc, actx))
+            # maximize total value (value read from the job by a symbolic function)
+            f3 = ctx.prog.find_free('create_maximize_total_job_value_feature')
+            read = EnumV('types::Either', 0, {0: [ArcV(Cell(DynV('job_value')))]})
+            feat3 = eng.exec_fn(st, f3, [name_tok, read, ArcV(Cell(DynV('job_write'))), Agg('struct', [IV(9, 'i32')], 'goal::ViolationCode')])
+            if feat3.variant() != 0:
+                raise Inconclusive('create_maximize_total_job_value_feature failed')
+            obj3 = feature_objective(feat3.payload[0][0])
+            v_route = estimate(eng, st, obj3, move_ctx_route(env, rc, job))
+            v_act = estimate(eng, st, obj3, move_ctx_activity(env, rc, actx))
+            return e_route, e_act, before, after, u_route, u_act, v_route, v_act
+
+        paths = eng.explore(body)
+        res.paths += len(paths)
+        res.functions |= eng.functions_used
+        for st, out in paths:
+            if out is None:
+                if not no_panic(ctx, res, env, st, what=name):
+                    break
+                continue
+            e_route, e_act, before, after, u_route, u_act, v_route, v_act = out
+            w = env.sym_f('job_weight', 0, 2 ** 16)
+            val = env.sym_f('job_value', 0, 2 ** 16)
+            claims = [f_eq(e_route, fv_sub(after, before)), f_eq(e_act, FV.const(0)),
+                      f_eq(u_route, FV(False, -w.v)), f_eq(u_act, FV.const(0)),
+                      f_eq(v_route, FV(False, -val.v)), f_eq(v_act, FV.const(0))]
+            if not decide_claim(ctx, res, env, st, z3.And(*claims), what=f'{name}[k={k}]: estimates == objective changes'):
+                break
+            if not no_panic(ctx, res, env, st, what=name):
+                break
+            res.witnesses += int(witness(ctx, res, env, st, w.v > 0))
+        if res.status != 'holds':
+            break
+    if res.status == 'holds' and res.witnesses == 0:
+        res.status, res.detail = 'inconclusive', 'vacuous'
+    res.time = time.time() - t0
+    return res
